@@ -64,7 +64,7 @@ func c23Build(t ev.TB, node int, start, end int64, signers int) isaac.SuffrageEx
 }
 
 type c23World struct {
-	t     *rapid.T
+	t     ev.TB // *rapid.T, or *testing.T in the regression table
 	r     *ev.Rec
 	pool  *isaacdatabase.TempPool
 	model map[string]c23Rec // by c23Key
@@ -245,6 +245,51 @@ func TestC23(t *testing.T) {
 
 	encs, enc := poolEncoders(t)
 	poolFixtures(t)
+
+	// ---- regression table: the shrunk cases of the defect this check found (plain code, no library)
+	t.Run("regress", func(t *testing.T) {
+		table := []struct {
+			name string
+			ops  [][3]int64 // node, start, end
+		}{
+			{"same node [1,1] and [2,2]", [][3]int64{{0, 1, 1}, {0, 2, 2}}},
+			{"two nodes [30,45] and [40,50] (design probe, scaled: [10,15] [13,20])", [][3]int64{{1, 10, 15}, {0, 13, 20}}},
+			{"nested [5,20] around [8,9]", [][3]int64{{2, 5, 20}, {2, 8, 9}}},
+		}
+
+		for i, c := range table {
+			if !r.Mine(i) {
+				continue
+			}
+
+			st := leveldbstorage.NewMemStorage()
+			pool := newTempPool(t, st, encs, enc, 0)
+			w := &c23World{t: t, r: r, pool: pool, model: map[string]c23Rec{}, classes: map[string]bool{}}
+
+			for _, o := range c.ops {
+				x := c23Rec{node: int(o[0]), start: o[1], end: o[2], signers: 1}
+				x.op = c23Build(t, x.node, x.start, x.end, x.signers)
+
+				if err := pool.SetSuffrageExpelOperation(x.op); err != nil {
+					t.Fatalf("set: %v", err)
+				}
+
+				w.model[c23Key(x.node, x.start, x.end)] = x
+				w.log = append(w.log, "set "+x.String())
+			}
+
+			w.checkAll("regression case '" + c.name + "'")
+
+			_ = pool.Close()
+			_ = st.Close()
+
+			r.Case("regress:"+c.name, w.nontrivial, "regression-table")
+		}
+	})
+
+	if t.Failed() {
+		return
+	}
 
 	r.Checks(500, 20000)
 	r.ShrinkTime(20 * time.Second)
